@@ -19,7 +19,7 @@ def run(ctx):
     users2, users3 = ["A", "B"], ["A", "B", "C"]
     sf, huge = 2, 99
     if ctx.thorough:
-        cfgs = {"Token_C06ontT.cfg": users3, "Token_C06ongT.cfg": users3, "Token_C06ontD.cfg": users2, "Token_C06ongD.cfg": users2,
+        cfgs = {"Token_C06ontT.cfg": users3, "Token_C06ongT.cfg": users3, "Token_C06ontD.cfg": users2,
                 "Token_C06post.cfg": users2, "Token_C06multi.cfg": users2}
         ucfg = "Token_C06ut.cfg"
     else:
@@ -83,7 +83,7 @@ def run(ctx):
         ctx.log("replayed %d steps on %d paths: %s" % (nsteps, npaths, counts))
     ntr = nev = 0
     if binary:
-        ntr, nst = (120, 150) if ctx.thorough else (12, 100)
+        ntr, nst = (80, 150) if ctx.thorough else (12, 100)
         tp = tk.trace_run(ctx, binary, users3, 100, 2000000000, ntr, nst, "c06")
         if tp:
             v = tk.trace_check(ctx, tp)
